@@ -1411,7 +1411,7 @@ func c15Short(s string) string {
 	})
 }
 
-var c15ReModelImpl = regexp.MustCompile(`model=ok:(\S+) impl=ok:(\S+)`)
+var c15ReModelImpl = regexp.MustCompile(`model=ok:([0-9,]+|-) impl=ok:([0-9,]+|-)`)
 
 // c15AnswerDiff: the numbers that are in exactly one of the model's and the server's answer (at most three)
 func c15AnswerDiff(answer string) []int {
@@ -1425,7 +1425,9 @@ func c15AnswerDiff(answer string) []int {
 			continue
 		}
 		for _, n := range strings.Split(l, ",") {
-			in[atoi(n)] |= 1 << side
+			if v, err := strconv.Atoi(n); err == nil {
+				in[v] |= 1 << side
+			}
 		}
 	}
 	var out []int
